@@ -432,6 +432,28 @@ Proof.
   - cbn in E. discriminate.
 Qed.
 
+(* @position: the value of every turn - the seed and every extension, hence every node nested in the
+   recursive field - records the range from the rule's entry offset to that turn's own end offset *)
+Theorem usual_turn_position k st c gl0 v1 s1 gl1 :
+  fl_position (flags_of (r_directives A)) = true ->
+  fl_string (flags_of (r_directives A)) = false ->
+  (forall fd, rf = [fd] -> name_eqb (fd_name fd) n_override = false) ->
+  usual_body k st c gl0 = (MOk v1 s1, gl1) ->
+  exists fs, v1 = VStruct a fs (Some (off st, off s1)).
+Proof.
+  intros Hp Hs Ho B. unfold usual_body in B.
+  match type of B with finish st ?x = _ => destruct x as [[fs s2|e|p|] g2] end; unfold finish in B; try discriminate B.
+  rewrite Hp, Hs in B.
+  assert (E : exists w, run_checks ustate scfg hk (checks_of (r_directives A)) w s2 g2 = (MOk v1 s1, gl1) /\
+                        w = VStruct a fs (Some (range_until st s2))).
+  { destruct rf as [|fd [|fd2 r]].
+    - eexists. split; [exact B|reflexivity].
+    - rewrite (Ho fd eq_refl) in B. eexists. split; [exact B|reflexivity].
+    - eexists. split; [exact B|reflexivity]. }
+  destruct E as (w & E & ->). destruct (run_checks_ok _ _ _ _ _ _ _ E) as [-> ->].
+  exists fs. reflexivity.
+Qed.
+
 (* the seed: the other alternatives, with the recursive reference failing *)
 Theorem usual_seed k st e gl0 v' s' gl1 :
   usual_body k st (CErr e) gl0 = (MOk v' s', gl1) ->
